@@ -1,11 +1,56 @@
 (* C03 - nothing below the threshold is reported; every result is well formed.
    Statements only; proofs in V2/MatchWF.v, V2/TokInv.v, Base/SortProof.v,
-   Base/Float64Proof.v. *)
+   Base/Float64Proof.v; composed in V2/Glue.v. *)
 From Coq Require Import List NArith ZArith Bool Arith Lia Permutation.
 Import ListNotations.
 From LC.Base Require Import Utf8 Float64 Sort SortProof Float64Proof.
 From LC.V2 Require Import Tok SSet Match ScoringProof MatchND MatchWF.
-From LC.V2 Require Import TokInv.
+From LC.V2 Require Import TokInv Glue.
+
+(* THE PROPERTY, composed end to end (tokenizer + matcher): for the tokenisation of ANY rune string, every reported match is a Copyright pseudo match (confidence 1.0, one line inside the input) or a document match with threshold <= confidence, 1 <= StartLine <= EndLine <= TotalInputLines <= 1 + number of newlines, 0 <= StartTokenIndex <= EndTokenIndex < number of words, lines = lines of those tokens *)
+(* statement as proved in V2/Glue.v (written out; checked against the lemma by exact) *)
+Theorem C03_all_in_one :
+  forall (T : tables) (rs : list rune) (C : config) (docs : list cdoc) (ids : list N) 
+           (tset : sset) (r : results),
+         let d := tokenize_runes T true rs in
+         let tgt_lines := map (fun t : word * N => Z.of_N (snd t)) (d_toks d) in
+         let pseudo := map Z.of_N (d_matches d) in
+         match_tokens C docs ids tgt_lines pseudo tset = Ok r ->
+         forall m : mtch,
+         In m (r_matches r) ->
+         m_name m = COPYRIGHT /\
+         m_type m = COPYRIGHT /\
+         m_conf m = fone /\
+         m_sl m = m_el m /\
+         In (m_sl m) pseudo /\ (1 <= m_sl m <= 1 + Z.of_N (nl rs))%Z /\ m_st m = 0%Z /\ m_et m = 0%Z \/
+         (exists d0 : cdoc,
+            In d0 docs /\
+            key_part (cd_key d0) 0 = Some (m_type m) /\
+            key_part (cd_key d0) 1 = Some (m_name m) /\
+            key_part (cd_key d0) 2 = Some (m_variant m) /\
+            fle (cf_thr C) (m_conf m) = true /\
+            (1 <= m_sl m)%Z /\
+            (m_sl m <= m_el m)%Z /\
+            (m_el m <= r_total r)%Z /\
+            (r_total r <= 1 + Z.of_N (nl rs))%Z /\
+            (0 <= m_st m)%Z /\
+            (m_st m <= m_et m)%Z /\
+            (m_et m < Z.of_nat (length tgt_lines))%Z /\
+            nth_error tgt_lines (Z.to_nat (m_st m)) = Some (m_sl m) /\
+            nth_error tgt_lines (Z.to_nat (m_et m)) = Some (m_el m)).
+Proof. exact (@C03_all_in_one). Qed.
+Print Assumptions C03_all_in_one.
+
+(* the reported matches are in non-increasing confidence order (both comparators) *)
+Theorem C03_sorted_by_confidence : forall C docs ids lines pseudo tset r,
+  match_tokens C docs ids lines pseudo tset = Ok r ->
+  small_docs docs ->
+  forall i j mi mj, (i < j)%nat ->
+    nth_error (r_matches r) i = Some mi ->
+    nth_error (r_matches r) j = Some mj ->
+    fle (m_conf mj) (m_conf mi) = true.
+Proof. exact C03_sorted_by_confidence. Qed.
+Print Assumptions C03_sorted_by_confidence.
 
 (* every reported match is a Copyright pseudo match (confidence 1.0, one line) or belongs to a corpus document: its (type, name, variant) is the key of that document, threshold <= confidence, 0 <= start token <= end token < number of input words, and Start/EndLine are the lines of those two tokens *)
 Theorem C03_every_match_well_formed : forall C docs tgt_ids tgt_lines pseudo tset r,
@@ -29,24 +74,30 @@ Proof. exact lines_ok. Qed.
 Print Assumptions C03_lines_ordered.
 
 (* tokenizer: every token line lies between 1 and the line of the last token, which is at most 1 + number of newlines (TotalInputLines <= number of lines of the input) *)
-(* statement as proved in V2/TokInv.v (restated through its type) *)
-Theorem C03_token_lines_bounded : ltac:(let t := type of (@doc_tok_le_last_le_bound) in exact t).
+(* statement as proved in V2/TokInv.v (written out; checked against the lemma by exact) *)
+Theorem C03_token_lines_bounded :
+  forall (T : tables) (n : bool) (rs : list rune) (t dflt : word * N),
+         In t (d_toks (tokenize_runes T n rs)) ->
+         (1 <= snd t)%N /\ (snd t <= snd (last (d_toks (tokenize_runes T n rs)) dflt) <= 1 + nl rs)%N.
 Proof. exact (@doc_tok_le_last_le_bound). Qed.
-Check C03_token_lines_bounded.
 Print Assumptions C03_token_lines_bounded.
 
 (* tokenizer: token lines are non-decreasing (the hypothesis of C03_lines_ordered) *)
-(* statement as proved in V2/TokInv.v (restated through its type) *)
-Theorem C03_token_lines_sorted : ltac:(let t := type of (@doc_tok_sorted) in exact t).
+(* statement as proved in V2/TokInv.v (written out; checked against the lemma by exact) *)
+Theorem C03_token_lines_sorted :
+  forall (T : tables) (n : bool) (rs : list rune) (i j : nat) (a b : word * N),
+         i <= j ->
+         nth_error (d_toks (tokenize_runes T n rs)) i = Some a ->
+         nth_error (d_toks (tokenize_runes T n rs)) j = Some b -> (snd a <= snd b)%N.
 Proof. exact (@doc_tok_sorted). Qed.
-Check C03_token_lines_sorted.
 Print Assumptions C03_token_lines_sorted.
 
 (* tokenizer: Copyright pseudo matches lie inside the input *)
-(* statement as proved in V2/TokInv.v (restated through its type) *)
-Theorem C03_pseudo_match_lines : ltac:(let t := type of (@doc_match_lines) in exact t).
+(* statement as proved in V2/TokInv.v (written out; checked against the lemma by exact) *)
+Theorem C03_pseudo_match_lines :
+  forall (T : tables) (n : bool) (rs : list rune),
+         Forall (fun m : N => (1 <= m <= 1 + nl rs)%N) (d_matches (tokenize_runes T n rs)).
 Proof. exact (@doc_match_lines). Qed.
-Check C03_pseudo_match_lines.
 Print Assumptions C03_pseudo_match_lines.
 
 (* the result is a subsequence of the candidate list sorted by Matches.Less *)
@@ -63,10 +114,13 @@ Proof. exact match_tokens_candidates. Qed.
 Print Assumptions C03_results_are_sorted_candidates.
 
 (* the sort really sorts: adjacent (indeed all) pairs are in Less order, whose primary key is non-increasing confidence *)
-(* statement as proved in Base/SortProof.v (restated through its type) *)
-Theorem C03_sort_sorted : ltac:(let t := type of (@sort_sorted) in exact t).
+(* statement as proved in Base/SortProof.v (written out; checked against the lemma by exact) *)
+Theorem C03_sort_sorted :
+  forall (A : Type) (lt : A -> A -> bool) (l : list A),
+         (forall x y : A, lt y x = true -> lt x y = false) ->
+         (forall x y z : A, lt y x = false -> lt z y = false -> lt z x = false) ->
+         Sorted.StronglySorted (fun x y : A => lt y x = false) (sort lt l).
 Proof. exact (@sort_sorted). Qed.
-Check C03_sort_sorted.
 Print Assumptions C03_sort_sorted.
 
 (* float64: 1 - d/k <= 1.0 *)
